@@ -253,6 +253,92 @@ func lockOrder(c *cx, id string) {
 			}
 		}
 	}
+	// locks a function may take itself or through the repository functions it
+	// calls (static callees, fixpoint): a call made while a class is held adds
+	// the order edges held -> taken-by-the-callee, and a callee that takes a
+	// class the caller holds exclusively is a self-deadlock (sync.Mutex is not
+	// reentrant): sendError calling Close with the output lock held never returns
+	may := map[*eng.Fn]map[string]bool{}
+	for _, f := range c.allFns() {
+		if f.Body == nil {
+			continue
+		}
+		m := map[string]bool{}
+		for _, cl := range f.AllCalls() {
+			if op, k, _ := f.LockOp(cl); op > 0 {
+				m[k] = true
+			} else if w, ok := acq[f.CalleeID(cl)]; ok {
+				m[w[0]] = true
+			}
+		}
+		may[f] = m
+	}
+	for changed := true; changed; {
+		changed = false
+		for _, f := range c.allFns() {
+			if f.Body == nil {
+				continue
+			}
+			for _, cl := range f.AllCalls() {
+				callee := c.p.FnOf(calleeFunc(f, cl))
+				if callee == nil || callee == f {
+					continue
+				}
+				for k := range may[callee] {
+					if !may[f][k] {
+						may[f][k] = true
+						changed = true
+					}
+				}
+			}
+		}
+	}
+	nre := 0
+	for _, f := range c.allFns() {
+		if f.Body == nil || neg[f] {
+			continue
+		}
+		li := f.Graph().Locks(nil)
+		for _, cl := range f.AllCalls() {
+			callee := c.p.FnOf(calleeFunc(f, cl))
+			if callee == nil || callee == f {
+				continue
+			}
+			if _, isGo := f.Graph().Parent(cl).(*ast.GoStmt); isGo {
+				continue // runs on another goroutine
+			}
+			if _, isDefer := f.Graph().Parent(cl).(*ast.DeferStmt); isDefer {
+				continue // judged at the exit, where the lockset is the deferred one
+			}
+			ls, ok := li.AtNode(cl)
+			if !ok {
+				continue
+			}
+			for held, mode := range ls {
+				if may[callee][held] {
+					nre++
+					// a callee that is an acquire-wrapper for this class is the acquisition itself
+					if w, isW := acq[f.CalleeID(cl)]; isW && w[0] == held {
+						continue
+					}
+					c.r.Check(id, f, "call of "+f.CalleeID(cl)+" with "+held+" held", "E-lock: a function that takes a mutex class is not called while that class is held (sync.Mutex is not reentrant)", cl.Pos(), mode != 'W', held+" is held exclusively here and "+f.CalleeID(cl)+" (or a function it calls) takes it again: the call never returns")
+					continue
+				}
+				for k := range may[callee] {
+					if k == held {
+						continue
+					}
+					e := edge{held, k}
+					if _, seen := where[e]; !seen {
+						where[e] = f.Short + " (" + c.p.Pos(cl.Pos()) + ", through " + f.CalleeID(cl) + ")"
+						fnOf[e] = f
+						posOf[e] = cl
+					}
+				}
+			}
+		}
+	}
+	_ = nre
 	var es []edge
 	for e := range where {
 		es = append(es, e)
